@@ -670,3 +670,44 @@ package gojq
 //@ func floatToInt(x float64) (r int)
 //@   property C03
 //@   ensures (flit(14114281232179134464) <= x && x < flit(4890909195324358656)) || r == MaxInt || r == MinInt
+
+// ---------------------------------------------------------------------------------------
+// C10/C12: floats on output (encoder.go). NaN prints as null, infinities saturate, the digits are
+// strconv's shortest round-trip digits (fmtFloat, assumed), in exponent form exactly outside
+// [1e-6, 1e21), and a two-digit negative exponent e-0d loses its zero.
+// ---------------------------------------------------------------------------------------
+//@ spec func fclamp(f float64) float64 = min(max(f, flit(18442240474082181119)), flit(9218868437227405311))
+//@ spec func useExp(x float64) bool = (!feq(x, flit(0)) && x < flit(4517329193108106637)) || flit(4921056587992461136) <= x
+//@ spec func cleanExp(b string) string = (len(b) >= 4 && b[len(b)-4] == 'e' && b[len(b)-3] == '-' && b[len(b)-2] == '0') ? b[:len(b)-2] + b[len(b)-1:] : b
+//@ spec func jsonFloat(f float64) string = isNaN(f) ? "null" : (useExp(fabs(fclamp(f))) ? cleanExp(fmtFloat(fclamp(f), 'e')) : fmtFloat(fclamp(f), 'f'))
+
+//@ func (e *encoder) encodeFloat64(f float64)
+//@   property C10 C12
+//@   requires e.w != nil
+//@   modifies out(e.w), e.buf
+//@   ensures out(e.w) == old(out(e.w)) + jsonFloat(f)
+
+// ---------------------------------------------------------------------------------------
+// C12: strings on output. esc(s) is defined unit by unit from the left: an ASCII byte that needs no
+// escape stands for itself, the other ASCII bytes become their JSON escape, a well-formed multi-byte
+// sequence is copied, and a byte that does not start a well-formed sequence becomes �.
+// escFrom(s, i) is the escaped form of s[i:] (i on a unit boundary).
+// ---------------------------------------------------------------------------------------
+//@ spec func plainByte(b int) bool = 32 <= b && b <= 126 && b != 34 && b != 92
+//@ spec func hexd(n int) int = (n < 10) ? 48 + n : 87 + n
+//@ spec func escByte(b int) string = (b == 34) ? "\\\"" : ((b == 92) ? "\\\\" : ((b == 8) ? "\\b" : ((b == 12) ? "\\f" : ((b == 10) ? "\\n" : ((b == 13) ? "\\r" : ((b == 9) ? "\\t" : "\\u00" + str1(hexd(b / 16)) + str1(hexd(b % 16))))))))
+//@ spec func unitw(s string, i int) int = (s[i] < 128) ? 1 : rwidth(s, i)
+//@ spec func escAt(s string, i int) string = (s[i] < 128) ? (plainByte(s[i]) ? s[i:i+1] : escByte(s[i])) : ((rdecode(s, i) == 65533 && rwidth(s, i) == 1) ? "\\ufffd" : s[i:i+rwidth(s, i)])
+//@ spec func escFrom(s string, i int) string
+//@ spec func escUnfold(s string, i int) bool
+//@ axiom esc_end: forall s string :: {escFrom(s, len(s))} escFrom(s, len(s)) == ""
+//@ axiom esc_step: forall s string; i int :: {escUnfold(s, i)} 0 <= i && i < len(s) ==> escFrom(s, i) == escAt(s, i) + escFrom(s, i + unitw(s, i))
+
+//@ func (e *encoder) encodeString(s string)
+//@   property C12
+//@   requires e.w != nil
+//@   modifies out(e.w)
+//@   loop 1 use esc_step(s, i)
+//@   loop 1 invariant e.w == old(e.w) && 0 <= start && start <= i && i <= len(s)
+//@   loop 1 invariant out(e.w) + s[start:i] + escFrom(s, i) == old(out(e.w)) + "\"" + escFrom(s, 0)
+//@   ensures out(e.w) == old(out(e.w)) + "\"" + escFrom(s, 0) + "\""
